@@ -1,7 +1,7 @@
 (* Extraction of the executable model for the correspondence check.
    Only ExtrOcamlBasic is used: bool, option, unit, list, prod, sumbool, sumor map to the
    OCaml types, andb/orb are inlined; nat, N, Z, positive, ascii and string stay the
-   extracted inductive types.  Run from ocaml/gen (output goes to the current directory). *)
+   extracted inductive types.  Run from ocaml/c02/gen by ocaml/build_model.sh (output goes to the current directory). *)
 Require Import ExtrOcamlBasic.
 From Casbin Require Import Effect.
 Separate Extraction
